@@ -32,6 +32,7 @@ Val(s) == CASE s = "x"  -> <<"x">>
             [] s = "uv" -> <<"u", "SP", "v">>
             [] s = "s"  -> <<"s">>
             [] s = "mb" -> <<"n", "U1">>              \* two characters, three bytes
+            [] s = "bs2" -> <<"a", "\\", "\\">>          \* ends in two backslashes
             [] OTHER    -> <<>>
 
 IFSSet(i) == CASE i = "comma" -> {","} [] i = "empty" -> {} [] i = "mb" -> {"U1", ","} [] OTHER -> S!DefaultIFS
@@ -44,6 +45,7 @@ JoinWith(vs, sep) == IF Len(vs) = 0 THEN <<>> ELSE IF Len(vs) = 1 THEN vs[1] ELS
 State(c) ==
     LET av == [i \in 1..Len(c.args) |-> Val(c.args[i])] IN
     CASE c.p = "v" -> [set |-> c.vst # "unset", null |-> c.vst = "null", vals |-> IF c.vst = "unset" THEN <<>> ELSE <<Val(c.vst)>>]
+      [] c.p = "big" -> [set |-> FALSE, null |-> FALSE, vals |-> <<>>]     \* a positional parameter with a 20-digit number
       [] c.p = "1" -> [set |-> Len(av) >= 1, null |-> Len(av) >= 1 /\ av[1] = <<>>, vals |-> IF Len(av) >= 1 THEN <<av[1]>> ELSE <<>>]
       [] c.p = "@" -> [set |-> TRUE, null |-> Len(av) = 0 \/ (Len(av) = 1 /\ av[1] = <<>>), vals |-> av]
       \* unquoted, $* stands for one field per positional parameter (each split further), like $@;
@@ -85,9 +87,9 @@ WordPre(c) == IF c.w = "at" THEN [i \in 1..Len(c.args) |-> PosQ(Val(c.args[i]), 
               ELSE LET w == WordOf(c) IN << PosQ(w.val, WordQuoted(c)) >>
 
 (* pattern of the % # operators: "x*" for prefixes, "*y" ... kept simple: ? *)
-PatItems == <<P!AnyC>>        \* the pattern ?
-StripOne(v, op) ==
-    LET k == P!Res({PatItems}, v, CASE op = "%" -> "ss" [] op = "%%" -> "sl" [] op = "#" -> "ps" [] OTHER -> "pl") IN
+PatItems(w) == IF w = "patbs" THEN <<P!Chr("\\")>> ELSE <<P!AnyC>>        \* the pattern ? / a quoted backslash
+StripOne(v, op, w) ==
+    LET k == P!Res({PatItems(w)}, v, CASE op = "%" -> "ss" [] op = "%%" -> "sl" [] op = "#" -> "ps" [] OTHER -> "pl") IN
     IF k = -1 THEN v
     ELSE IF op \in {"%", "%%"} THEN SubSeq(v, 1, Len(v) - k) ELSE SubSeq(v, k + 1, Len(v))
 
@@ -122,9 +124,9 @@ Expected(c) ==
                 IN Ok(<< Pos(<<ToString(n)>>, InDQ(c)) >>, c, FALSE, c.vst)
       [] OTHER ->    \* % %% # ##  with the pattern ?
            IF ~st.set THEN (IF c.nounset THEN Fail(c) ELSE Ok(ValuePre(st, c), c, FALSE, c.vst))
-           ELSE IF c.p = "@" THEN Ok([i \in 1..Len(st.vals) |-> PosQ(StripOne(st.vals[i], c.op), InDQ(c))], c, FALSE, c.vst)
+           ELSE IF c.p = "@" THEN Ok([i \in 1..Len(st.vals) |-> PosQ(StripOne(st.vals[i], c.op, c.w), InDQ(c))], c, FALSE, c.vst)
            ELSE IF Len(st.vals) = 0 THEN Ok(ValuePre(st, c), c, FALSE, c.vst)
-           ELSE Ok(<< PosQ(StripOne(st.vals[1], c.op), InDQ(c)) >>, c, FALSE, c.vst)
+           ELSE Ok(<< PosQ(StripOne(st.vals[1], c.op, c.w), InDQ(c)) >>, c, FALSE, c.vst)
 
 (* cells where the property leaves the result open *)
 Unspecified(c) == \/ c.p = "*" /\ c.op = "len"                 \* ${#*} is unspecified by POSIX
